@@ -30,7 +30,8 @@ LAMBDIFY_NDARRAY = ('sympy.lambdify of a numpy object array raises TypeError in 
 
 def evaluates_to_numbers(b):
     try:
-        a = numpy.array(b.eval(mixed=bool(getattr(b, 'is_mixed', False))).array, dtype=complex)
+        ev = b.eval(mixed=bool(getattr(b, 'is_mixed', False))) if hasattr(b, 'is_mixed') else b.eval()
+        a = numpy.array(ev.array, dtype=complex)
         return bool(numpy.all(numpy.isfinite(a)))
     except Exception:
         return False
@@ -110,6 +111,34 @@ def run(tier):
     suite.fact('cat.Box.subs.nested', ns.data == {'k': [6, (y, {'d': z})], 'j': 3} and ns.free_symbols == {y, z}
                and (ns.name, ns.dom, ns.cod, ns.is_dagger) == (nested.name, nested.dom, nested.cod, nested.is_dagger),
                functions=['cat.rsubs', 'cat.rmap', 'cat.Box.subs'])
+    deep = nested.subs(z, 7)
+    suite.fact('cat.Box.subs.nested.deep', deep.data == {'k': [x + 1, (y, {'d': 7})], 'j': 3} and deep.free_symbols == {x, y},
+               what='substitution reaches symbols nested inside sequences inside mappings inside sequences',
+               functions=['cat.rsubs', 'cat.rmap', 'cat.Box.subs'])
+    mnest = tensor.Box('m', Dim(2), Dim(2), [[x, 1], [0, y * x]])
+    full_m = mnest.subs([(x, 2), (y, 3)])
+    suite.fact('tensor.Box.subs.nested_list.free_symbols', mnest.free_symbols == {x, y} and not full_m.free_symbols,
+               what='box data written as a nested list: substituting every symbol leaves none (left: %s)'
+                    % sorted(map(str, full_m.free_symbols)), functions=['cat.rmap', 'cat.Box.subs'])
+    suite.identity('tensor.Box.subs.nested_list.commutes', arr(mnest.subs(x, z).eval()), sub_arr(mnest.eval(), x, z),
+                   extra=(x, y, z), functions=['cat.rmap', 'cat.Box.subs'])
+    suite.fact('tensor.Box.subs.nested_list.numbers', evaluates_to_numbers(full_m), functions=['cat.Box.subs'])
+    # a daggered generic box whose data is not its own conjugate transpose: subs and lambdify keep the flag
+    gd = tensor.Box('g', Dim(2), Dim(3), [x, sympy.I * y, 0, 1, x * y, 2]).dagger()
+    gsub = gd.subs([(x, 2), (y, 3)])
+    suite.fact('tensor.Box.dagger.subs.structure', (gsub.is_dagger, gsub.dom, gsub.cod) == (True, gd.dom, gd.cod),
+               functions=['cat.Box.subs'])
+    suite.identity('tensor.Box.dagger.subs.commutes', arr(gd.subs(x, z).eval()), sub_arr(gd.eval(), x, z), extra=(x, y, z),
+                   functions=['cat.Box.subs'])
+    with suite.guard('tensor.Box.dagger.lambdify', ['cat.Box.lambdify']):
+        glam = gd.lambdify(x, y)(2, 3)
+        suite.fact('tensor.Box.dagger.lambdify.structure', (glam.is_dagger, glam.dom, glam.cod) == (True, gd.dom, gd.cod),
+                   what='lambdify keeps the dagger flag of a generic box', functions=['cat.Box.lambdify'])
+        suite.identity('tensor.Box.dagger.lambdify==subs', arr(glam.eval()), arr(gsub.eval()), functions=['cat.Box.lambdify'],
+                       what='lambdify then eval equals subs then eval on a daggered non-square box')
+        dl = (gd >> gd.dagger()).lambdify(x, y)(2, 3)
+        suite.identity('tensor.Diagram.dagger.lambdify==subs', arr(dl.eval()), arr((gd >> gd.dagger()).subs([(x, 2), (y, 3)]).eval()),
+                       functions=['monoidal.Diagram.lambdify', 'cat.Box.lambdify'])
     nd = nested.dagger().subs(x, 5)
     suite.fact('cat.Box.subs.dagger_flag', nd.is_dagger and (nd.dom, nd.cod) == (nested.cod, nested.dom),
                functions=['cat.Box.subs'])
